@@ -255,7 +255,7 @@ func (gb GenBank) String() string {
 
 	definition := AddPrefix(gb.Fields.Definition, indent)
 	b.WriteString("DEFINITION  " + definition + ".\n")
-	b.WriteString("ACCESSION   " + gb.Fields.Accession)
+	b.WriteString("ACCESSION   " + AddPrefix(gb.Fields.Accession, indent))
 	if seg, ok := gb.Fields.Region.(gts.Segment); ok && seg[0] < seg[1] {
 		loc := gts.Range(gts.Unpack(seg))
 		b.WriteString(fmt.Sprintf(" REGION: %s", loc))
